@@ -414,6 +414,11 @@ def run(ctx):
             ctx.sample({"history": ops[:60] + (["..."] if len(ops) > 60 else []), "hop": i < nhops})
     for k, v in stats.items():
         ctx.count(k, v)
+    if ctx.tier == "thorough" and ctx.shard == 0:
+        # E8: every neighbors() call of the repository's own suite shadowed in place
+        from egverif import suite
+
+        suite.run(ctx, "C05")
     ctx.assumptions += [
         "filters are importable pure functions (their identity is part of the cache key)",
         "cache hits are observed through the public Vertex.total_cache_stats() text",
